@@ -314,3 +314,11 @@ func Header(what string, sources ...string) string {
 	return "/- GENERATED by /verif/tools/extract from " + strings.Join(sources, ", ") +
 		" — do not edit. " + what + " -/\n"
 }
+
+// lowerFirst lower-cases the first byte (Go exported name -> Lean name).
+func lowerFirst(s string) string {
+	if s == "" {
+		return s
+	}
+	return strings.ToLower(s[:1]) + s[1:]
+}
